@@ -117,7 +117,7 @@ def lawJudge (op : String) (args : List Sexp) (impl : Sexp) : Bool × String :=
     else ((decList flips).all fun
       | list [u, diff] => !decBool diff || essential.contains (decName u)
       | _ => false, "law:flip-names-essential")
-  | "law.eval", list [atom "L", cls, uni, list rows, vfull, vdef1, vdef0, list cks] =>
+  | "law.eval", list [atom "L", cls, uni, list rows, vfull, vdef1, vdef0, list cks, list sparse, sd1, sd0] =>
     -- C02: the three evaluation modes against the recipe evaluated here
     let cs := decClauses cls
     let names := decNames uni
@@ -130,6 +130,10 @@ def lawJudge (op : String) (args : List Sexp) (impl : Sexp) : Bool × String :=
     if rows.isEmpty || decBits vfull != full then (false, "law:evaluate")
     else if decBits vdef1 != part true then (false, "law:evaluate-with-default-true")
     else if decBits vdef0 != part false then (false, "law:evaluate-with-default-false")
+    else if decBits sd1 != sparse.map (fun s => evalRecipe cs (fun v => (decPVal s).lookup v) true) then
+      (false, "law:evaluate-sparse-assignment-default-true")
+    else if decBits sd0 != sparse.map (fun s => evalRecipe cs (fun v => (decPVal s).lookup v) false) then
+      (false, "law:evaluate-sparse-assignment-default-false")
     else ((cks.zip full).all fun
       | (list [c1, c2], b) =>
         c1 == encBool b &&
